@@ -191,6 +191,26 @@ where
             let mut c = 0;
             let _ = arr::<N>().into_iter().rfold(0usize, |acc, x| { x.touch(); boom(&mut c); acc + 1 });
         });
+        // iterator fold / rfold from every partially consumed state (front f, back b taken first), and from a clone of it
+        for f in 0..=2usize {
+            for b in 0..=2usize {
+                if f + b > n || (f == 0 && b == 0) { continue; }
+                rep.case("C04", &format!("into_iter() -{}front -{}back .fold", f, b), n, k, true, || {
+                    let mut c = 0;
+                    let mut it = arr::<N>().into_iter();
+                    for _ in 0..f { drop(it.next()); }
+                    for _ in 0..b { drop(it.next_back()); }
+                    let _ = it.fold(0usize, |acc, x| { x.touch(); boom(&mut c); acc + 1 });
+                });
+                rep.case("C04", &format!("into_iter() -{}front -{}back .rfold", f, b), n, k, true, || {
+                    let mut c = 0;
+                    let mut it = arr::<N>().into_iter();
+                    for _ in 0..f { drop(it.next()); }
+                    for _ in 0..b { drop(it.next_back()); }
+                    let _ = it.rfold(0usize, |acc, x| { x.touch(); boom(&mut c); acc + 1 });
+                });
+            }
+        }
         // zip: nine stack forms + boxed, droppable x droppable and droppable x plain
         macro_rules! zipcase { ($nm:expr, |$a:ident, $b:ident, $c:ident| $e:expr) => {
             rep.case("C04", $nm, n, k, true, || { let mut $a = arr::<N>(); let mut $b = arr::<N>(); let mut $c = 0; let _o: GenericArray<P, N> = $e; });
